@@ -6,6 +6,7 @@ import (
 
 	"github.com/superfly/litefs/verifharness/core"
 	"github.com/superfly/litefs/verifharness/dbreplay"
+	"github.com/superfly/litefs/verifharness/repl"
 )
 
 func main() {
@@ -14,8 +15,14 @@ func main() {
 	rep.Rule = "behaviours of DBFile.tla in both journal modes (local commits, rollbacks, client and LiteFS checkpoints, log restarts, growth and shrink across checksum blocks) replayed on a real node; at every position change and every idle point the reported checksum is compared with CRC64/XOR recomputed by the harness (hash/crc64 only) from the bytes on disk (database file overlaid with the committed frames found by the harness's own WAL walk) and from the bytes read through the handles; non-trivial = at least one transaction was captured"
 	rep.Assumptions = []string{"CRC64 collisions ignored", "replicated applies, snapshots, restart recovery, import and drop are covered by the C01/C05/C15/C16 checks with the same monitor"}
 	defer core.Cleanup()
+	// replicated applies, snapshots, restarts and drops: the cluster scripts with this property's monitors
+	repl.Main(rep, args, map[string]bool{"C04": true}, []repl.Stage{
+		{Name: "repl-3n-2tx-2faults", Cfg: "MC_Repl_quick.cfg", Timeout: 10 * time.Minute, MaxKeep: core.Pick(args, 40, 300)},
+	})
 	dbreplay.Main(rep, args, "C04", []dbreplay.Stage{
 		{Name: "rb-3pg-3ops-exhaustive", Cfg: "MC_DBFile_rb.cfg", Timeout: 10 * time.Minute, MaxKeep: core.Pick(args, 400, 0)},
 		{Name: "wal-3pg-4ops-exhaustive", Cfg: "MC_DBFile_wal.cfg", Timeout: 15 * time.Minute, MaxKeep: core.Pick(args, 1200, 10000)},
+		{Name: "rb-beyond-3pg-3ops-exhaustive", Cfg: "MC_DBFile_rb_beyond.cfg", Timeout: 10 * time.Minute, MaxKeep: core.Pick(args, 400, 0)},
+		{Name: "rb-drop-recreate-3pg-4ops-exhaustive", Cfg: "MC_DBFile_drop.cfg", Timeout: 10 * time.Minute, MaxKeep: core.Pick(args, 500, 0)},
 	})
 }
